@@ -69,6 +69,15 @@ CLAIMED = {
    note="Histories exhaustive to depth 4 (quick) / 6 (thorough) over 3 functions; programs sampled. Lazy-BB generation is outside this property.",
    technique="TLA+ lifecycle state machine (TLC BFS, all transitions) replayed through the API on TLC-generated programs (direction A)",
    design="DESIGN.md §4 C16, §3.5"),
+ "C03": dict(level="model_checking",
+   text="MIRExec.tla enumerates every history: link with one of the interfaces (interpreter, eager, lazy, lazy-BB generation; -O0..-O3), then "
+        "three calls of the two entry functions in any order through MIR_interp or the public address; TLC checks the thunk-state properties "
+        "(Monotone, LinkedBeforeCall). Each history is replayed on two-module programs built and executed by MIRProg/MIRSem (direct, indirect, "
+        "recursive calls, C callback re-entering MIR, label addresses/jmpi, alloca, FP): every call must give the specification's result, "
+        "memory and external-call log whatever the interface, and item->addr of every function must stay the same.",
+   note="Histories exhaustive for 2 entries x 3 calls; programs sampled (96 quick / 600 thorough). Property insns are excluded as in the property.",
+   technique="TLA+ interface/first-call state machine (TLC, all histories) x TLA+ abstract machine as oracle; replay through every interface",
+   design="DESIGN.md §4 C03, §3.5"),
 }
 NOT_YET = "not claimed yet: the specification/binding for this property is still under construction in this round (DESIGN.md §7 order)"
 
